@@ -141,7 +141,67 @@ def rule_rearm(prog):
                 res.viol("rearm#%d" % n, "%s:%s" % (f.file, t.get("ln")),
                          "re-activating a hold-for-duration virtual key computes the new remaining time from the old one instead of "
                          "overwriting it: the key is no longer held 'until the stated time has passed since its most recent activation'")
+    if n == 0:
+        n = _rearm_entry_match(prog, f, res)
     return res
+
+
+def _rearm_entry_match(prog, f, res):
+    """the same re-arm written with the Entry enum: `match map.entry(c) { Occupied(mut e) => *e.get_mut() = d (or e.insert(d)), .. }`.
+    The value stored for an occupied entry must not be computed from what the entry holds (get / get_mut / the old value
+    returned by insert)."""
+    from kq.core import rvalue_operands
+    n = 0
+
+    def depends_on_entry(op, entry_refs):
+        seen, work = set(), [op]
+        while work:
+            x = work.pop()
+            if not is_place(x):
+                continue
+            if x["l"] in entry_refs:
+                return True
+            if x["l"] in seen:
+                continue
+            seen.add(x["l"])
+            for (bb, idx, kind, payload) in f.defs().get(x["l"], []):
+                if kind == "assign":
+                    work.extend(rvalue_operands(payload))
+                elif kind == "call":
+                    if "OccupiedEntry" in (callee_name(payload) or "") and (callee_name(payload) or "").split("::")[-1] in ("get", "get_mut", "insert", "remove", "into_mut"):
+                        return True
+                    work.extend(payload["args"])
+        return False
+    for bi, t in f.calls():
+        cn = callee_name(t) or ""
+        short = cn.split("::")[-1]
+        if "OccupiedEntry" not in cn or short not in ("get_mut", "insert", "into_mut"):
+            continue
+        fl, _, _ = backward_slice(f, t["args"][0])
+        if ("kanata_state_machine::kanata::Kanata", "vkeys_pending_release") not in fl:
+            continue
+        n += 1
+        ok, stores = True, 0
+        if short == "insert":
+            stores = 1
+            ok = not depends_on_entry(t["args"][1], set())
+        else:
+            r = t["dest"]["l"]
+            for b2, si, st in f.all_rvalues():
+                p_ = st["p"]
+                if p_["l"] == r and proj(p_) and proj(p_)[0] == "*":
+                    stores += 1
+                    for o in rvalue_operands(st["rv"]):
+                        if depends_on_entry(o, {r}):
+                            ok = False
+        ok = ok and stores > 0
+        res.inst("rearm#%d" % n, where="%s:%s" % (f.file, t.get("ln")), overwrites=ok, form="Entry::Occupied")
+        res.oblige(ok)
+        if not ok:
+            res.viol("rearm#%d" % n, "%s:%s" % (f.file, t.get("ln")),
+                     "re-activating a hold-for-duration virtual key computes the new remaining time from the old one instead of "
+                     "overwriting it: the key is no longer held 'until the stated time has passed since its most recent activation'")
+    return n
 
 
 def rule_set_identity(prog):
@@ -283,10 +343,39 @@ def rule_toggle_queued(prog):
     region = sws[0].arm_region("Toggle")
     evs = [b for b in region if f.term(b)["k"] == "call" and (callee_name(f.term(b)) or "").endswith("Layout::<'a, C, R, T>::event")
            or (b in region and f.term(b)["k"] == "call" and (callee_name(f.term(b)) or "").split("::")[-1] == "event")]
-    callees = set()
+    def is_press_event(b):
+        t = f.term(b)
+        if t["k"] == "call" and (callee_name(t) or "").split("::")[-1] == "event" and len(t["args"]) > 1:
+            d = f.single_def(t["args"][1]["l"]) if is_place(t["args"][1]) and not proj(t["args"][1]) else None
+            return bool(d and d[2] == "assign" and d[3]["k"] == "agg" and d[3].get("v") == "Press")
+        return False
+
+    def looks(b):
+        flds, cal = dependence_slice(f, b)[:2]
+        st_ = any(c.endswith("states_has_coord") for c in cal) or any(fl == "states" and (a or "").endswith("layout::Layout") for a, fl in flds)
+        return st_, any(c.split("::")[-1] == "last_queued_event" for c in cal)
+    all_arm_events = [b for v in ("Toggle", "Press", "Tap") if sws[0].target(v) is not None for b in sws[0].arm_region(v)
+                      if f.term(b)["k"] == "call" and (callee_name(f.term(b)) or "").split("::")[-1] == "event"]
+    if not all_arm_events:
+        # the arms only compute what to send (`let (send_press, send_release) = match action { .. }`) and the events are queued
+        # after the match: every Press event of the function then has to depend on the look at the key's future state
+        presses = [b for b in sorted(f.reachable()) if is_press_event(b)]
+        oks = [looks(b) for b in presses]
+        ok = bool(presses) and all(a and q for a, q in oks)
+        res.inst("press-events-depend-on-key-state", where=f.loc, press_events=len(presses), ok=ok)
+        res.oblige(ok)
+        if not ok:
+            res.viol("press-events-depend-on-key-state", f.loc,
+                     "handle_fakekey_action queues a press of the virtual key without the decision depending on both the layout states and "
+                     "the events still queued for the key (Layout::last_queued_event): two toggles requested before the next tick both "
+                     "press, press on a pressed key presses again")
+        return res
+    callees, fields_ = set(), set()
     for b in evs:
-        callees |= dependence_slice(f, b)[1]
-    looks_states = any(c.endswith("states_has_coord") for c in callees)
+        sl = dependence_slice(f, b)
+        fields_ |= sl[0]
+        callees |= sl[1]
+    looks_states = any(c.endswith("states_has_coord") for c in callees) or any(fl == "states" and (a or "").endswith("layout::Layout") for a, fl in fields_)
     looks_queue = any(c.split("::")[-1] == "last_queued_event" for c in callees)
     ok = len(evs) >= 2 and looks_states and looks_queue
     res.inst("toggle-decision", where=f.loc, event_calls=len(evs), looks_at_states=looks_states, looks_at_queued_events=looks_queue, ok=ok)
@@ -304,10 +393,7 @@ def rule_toggle_queued(prog):
                 d = f.single_def(t["args"][1]["l"]) if is_place(t["args"][1]) and not proj(t["args"][1]) else None
                 if d and d[2] == "assign" and d[3]["k"] == "agg" and d[3].get("v") == "Press":
                     presses.append(b)
-        cal = set()
-        for b in presses:
-            cal |= dependence_slice(f, b)[1]
-        oka = bool(presses) and any(c.split("::")[-1] == "last_queued_event" for c in cal) and any(c.endswith("states_has_coord") for c in cal)
+        oka = bool(presses) and all(all(looks(b)) for b in presses)
         res.inst("%s-decision" % arm.lower(), where=f.loc, press_events=len(presses), ok=oka)
         res.oblige(oka)
         if not oka:
